@@ -652,3 +652,129 @@ package authf
 //@   modifies buf.buf.bytes
 //@   ensures [C03] result == nil && buf.buf.bytes == pre
 //@   safety [C03]
+//
+//@ func (*Auth).AuthProcessWithContext
+//@   noframe
+//@   site ).Write#0 assert [C01,C16] $2 == 1
+//@   sites ).Write = 1
+//@   site TarsInvoke#0 assert [C01,C16] $1 == 0 && $2 == "authProcess"
+//@   sites TarsInvoke = 1
+//@   site ).Read#0 assert [C01,C16] $2 == 0
+//@   sites ).Read = 1
+//@   site TarsInvoke#0 assert [C01,C16] ((len(opts) == 1 || len(opts) == 2) ==> $5 == opts[0]) && (len(opts) == 2 ==> $4 == opts[1]) && $5 == contextMap && $4 == statusMap && $6 == tarsResp
+//@   site TarsInvoke#0 ghostafter obj.gresp = addr(*tarsResp)
+//@   site TarsInvoke#0 ghostafter obj.gctx = contextMap
+//@   site TarsInvoke#0 ghostafter obj.gsta = statusMap
+//@   site NewReader#0 ghostafter obj.gresp = addr(*tarsResp)
+//@   site NewReader#0 ghostafter obj.gctx = contextMap
+//@   site NewReader#0 ghostafter obj.gsta = statusMap
+//@   site ).Read#0 ghostafter obj.gresp = addr(*tarsResp)
+//@   site ).Read#0 ghostafter obj.gctx = contextMap
+//@   site ).Read#0 ghostafter obj.gsta = statusMap
+//@   ensures [C01,C16] (result1 == nil && len(opts) == 1) ==> (forall k: seq {cast(obj.gctx, "map[string]string")[k]} {haskey(cast(obj.gctx, "map[string]string"), k)} :: haskey(cast(obj.gctx, "map[string]string"), k) ==> (haskey(cast(obj.gresp, "*requestf.ResponsePacket").Context, k) && cast(obj.gctx, "map[string]string")[k] == cast(obj.gresp, "*requestf.ResponsePacket").Context[k]))
+//@   ensures [C01,C16] (result1 == nil && len(opts) == 2) ==> (forall k: seq {cast(obj.gsta, "map[string]string")[k]} {haskey(cast(obj.gsta, "map[string]string"), k)} :: haskey(cast(obj.gsta, "map[string]string"), k) ==> (haskey(cast(obj.gresp, "*requestf.ResponsePacket").Status, k) && cast(obj.gsta, "map[string]string")[k] == cast(obj.gresp, "*requestf.ResponsePacket").Status[k]))
+//@   ensures [C01,C16] (result1 == nil && len(opts) == 2 && obj.gsta != obj.gctx && obj.gsta != cast(obj.gresp, "*requestf.ResponsePacket").Context) ==> (forall k: seq {cast(obj.gctx, "map[string]string")[k]} {haskey(cast(obj.gctx, "map[string]string"), k)} :: haskey(cast(obj.gctx, "map[string]string"), k) ==> (haskey(cast(obj.gresp, "*requestf.ResponsePacket").Context, k) && cast(obj.gctx, "map[string]string")[k] == cast(obj.gresp, "*requestf.ResponsePacket").Context[k]))
+//@   loop 0 invariant obj.gresp == addr(*tarsResp) && obj.gctx == contextMap && obj.gsta == statusMap && len(opts) == 1 && (forall k: seq {visited(0, k)} :: visited(0, k) ==> !haskey(contextMap, k)) && (forall k: seq {haskey(contextMap, k)} :: haskey(contextMap, k) ==> atentry(0, haskey(contextMap, k)))
+//@   loop 1 invariant obj.gresp == addr(*tarsResp) && obj.gctx == contextMap && obj.gsta == statusMap && len(opts) == 1 && (forall k: seq {contextMap[k]} {haskey(contextMap, k)} :: haskey(contextMap, k) ==> (haskey(tarsResp.Context, k) && contextMap[k] == tarsResp.Context[k]))
+//@   loop 2 invariant obj.gresp == addr(*tarsResp) && obj.gctx == contextMap && obj.gsta == statusMap && len(opts) == 2 && (forall k: seq {visited(2, k)} :: visited(2, k) ==> !haskey(contextMap, k)) && (forall k: seq {haskey(contextMap, k)} :: haskey(contextMap, k) ==> atentry(2, haskey(contextMap, k)))
+//@   loop 3 invariant obj.gresp == addr(*tarsResp) && obj.gctx == contextMap && obj.gsta == statusMap && len(opts) == 2 && (forall k: seq {contextMap[k]} {haskey(contextMap, k)} :: haskey(contextMap, k) ==> (haskey(tarsResp.Context, k) && contextMap[k] == tarsResp.Context[k]))
+//@   loop 4 invariant obj.gresp == addr(*tarsResp) && obj.gctx == contextMap && obj.gsta == statusMap && len(opts) == 2 && (forall k: seq {visited(4, k)} :: visited(4, k) ==> !haskey(statusMap, k)) && (forall k: seq {haskey(statusMap, k)} :: haskey(statusMap, k) ==> atentry(4, haskey(statusMap, k))) && ((statusMap != contextMap && statusMap != tarsResp.Context) ==> (forall k: seq {contextMap[k]} {haskey(contextMap, k)} :: haskey(contextMap, k) ==> (haskey(tarsResp.Context, k) && contextMap[k] == tarsResp.Context[k])))
+//@   loop 5 invariant obj.gresp == addr(*tarsResp) && obj.gctx == contextMap && obj.gsta == statusMap && len(opts) == 2 && (forall k: seq {statusMap[k]} {haskey(statusMap, k)} :: haskey(statusMap, k) ==> (haskey(tarsResp.Status, k) && statusMap[k] == tarsResp.Status[k])) && ((statusMap != contextMap && statusMap != tarsResp.Context) ==> (forall k: seq {contextMap[k]} {haskey(contextMap, k)} :: haskey(contextMap, k) ==> (haskey(tarsResp.Context, k) && contextMap[k] == tarsResp.Context[k])))
+//@   loop 0 modifies mapcells(contextMap)
+//@   loop 1 modifies mapcells(contextMap)
+//@   loop 2 modifies mapcells(contextMap)
+//@   loop 3 modifies mapcells(contextMap)
+//@   loop 4 modifies mapcells(statusMap)
+//@   loop 5 modifies mapcells(statusMap)
+//
+//@ func (*Auth).AuthProcessOneWayWithContext
+//@   noframe
+//@   site ).Write#0 assert [C01,C16] $2 == 1
+//@   sites ).Write = 1
+//@   sites ).Read = 0
+//@   site TarsInvoke#0 assert [C01,C16] $1 == 1 && $2 == "authProcess"
+//@   sites TarsInvoke = 1
+//
+//@ func (*Auth).ApplyTokenWithContext
+//@   noframe
+//@   site ).Write#0 assert [C01,C16] $2 == 1
+//@   sites ).Write = 1
+//@   site TarsInvoke#0 assert [C01,C16] $1 == 0 && $2 == "applyToken"
+//@   sites TarsInvoke = 1
+//@   site ).Read#0 assert [C01,C16] $2 == 0
+//@   sites ).Read = 1
+//@   site TarsInvoke#0 assert [C01,C16] ((len(opts) == 1 || len(opts) == 2) ==> $5 == opts[0]) && (len(opts) == 2 ==> $4 == opts[1]) && $5 == contextMap && $4 == statusMap && $6 == tarsResp
+//@   site TarsInvoke#0 ghostafter obj.gresp = addr(*tarsResp)
+//@   site TarsInvoke#0 ghostafter obj.gctx = contextMap
+//@   site TarsInvoke#0 ghostafter obj.gsta = statusMap
+//@   site NewReader#0 ghostafter obj.gresp = addr(*tarsResp)
+//@   site NewReader#0 ghostafter obj.gctx = contextMap
+//@   site NewReader#0 ghostafter obj.gsta = statusMap
+//@   site ).Read#0 ghostafter obj.gresp = addr(*tarsResp)
+//@   site ).Read#0 ghostafter obj.gctx = contextMap
+//@   site ).Read#0 ghostafter obj.gsta = statusMap
+//@   ensures [C01,C16] (result1 == nil && len(opts) == 1) ==> (forall k: seq {cast(obj.gctx, "map[string]string")[k]} {haskey(cast(obj.gctx, "map[string]string"), k)} :: haskey(cast(obj.gctx, "map[string]string"), k) ==> (haskey(cast(obj.gresp, "*requestf.ResponsePacket").Context, k) && cast(obj.gctx, "map[string]string")[k] == cast(obj.gresp, "*requestf.ResponsePacket").Context[k]))
+//@   ensures [C01,C16] (result1 == nil && len(opts) == 2) ==> (forall k: seq {cast(obj.gsta, "map[string]string")[k]} {haskey(cast(obj.gsta, "map[string]string"), k)} :: haskey(cast(obj.gsta, "map[string]string"), k) ==> (haskey(cast(obj.gresp, "*requestf.ResponsePacket").Status, k) && cast(obj.gsta, "map[string]string")[k] == cast(obj.gresp, "*requestf.ResponsePacket").Status[k]))
+//@   ensures [C01,C16] (result1 == nil && len(opts) == 2 && obj.gsta != obj.gctx && obj.gsta != cast(obj.gresp, "*requestf.ResponsePacket").Context) ==> (forall k: seq {cast(obj.gctx, "map[string]string")[k]} {haskey(cast(obj.gctx, "map[string]string"), k)} :: haskey(cast(obj.gctx, "map[string]string"), k) ==> (haskey(cast(obj.gresp, "*requestf.ResponsePacket").Context, k) && cast(obj.gctx, "map[string]string")[k] == cast(obj.gresp, "*requestf.ResponsePacket").Context[k]))
+//@   loop 0 invariant obj.gresp == addr(*tarsResp) && obj.gctx == contextMap && obj.gsta == statusMap && len(opts) == 1 && (forall k: seq {visited(0, k)} :: visited(0, k) ==> !haskey(contextMap, k)) && (forall k: seq {haskey(contextMap, k)} :: haskey(contextMap, k) ==> atentry(0, haskey(contextMap, k)))
+//@   loop 1 invariant obj.gresp == addr(*tarsResp) && obj.gctx == contextMap && obj.gsta == statusMap && len(opts) == 1 && (forall k: seq {contextMap[k]} {haskey(contextMap, k)} :: haskey(contextMap, k) ==> (haskey(tarsResp.Context, k) && contextMap[k] == tarsResp.Context[k]))
+//@   loop 2 invariant obj.gresp == addr(*tarsResp) && obj.gctx == contextMap && obj.gsta == statusMap && len(opts) == 2 && (forall k: seq {visited(2, k)} :: visited(2, k) ==> !haskey(contextMap, k)) && (forall k: seq {haskey(contextMap, k)} :: haskey(contextMap, k) ==> atentry(2, haskey(contextMap, k)))
+//@   loop 3 invariant obj.gresp == addr(*tarsResp) && obj.gctx == contextMap && obj.gsta == statusMap && len(opts) == 2 && (forall k: seq {contextMap[k]} {haskey(contextMap, k)} :: haskey(contextMap, k) ==> (haskey(tarsResp.Context, k) && contextMap[k] == tarsResp.Context[k]))
+//@   loop 4 invariant obj.gresp == addr(*tarsResp) && obj.gctx == contextMap && obj.gsta == statusMap && len(opts) == 2 && (forall k: seq {visited(4, k)} :: visited(4, k) ==> !haskey(statusMap, k)) && (forall k: seq {haskey(statusMap, k)} :: haskey(statusMap, k) ==> atentry(4, haskey(statusMap, k))) && ((statusMap != contextMap && statusMap != tarsResp.Context) ==> (forall k: seq {contextMap[k]} {haskey(contextMap, k)} :: haskey(contextMap, k) ==> (haskey(tarsResp.Context, k) && contextMap[k] == tarsResp.Context[k])))
+//@   loop 5 invariant obj.gresp == addr(*tarsResp) && obj.gctx == contextMap && obj.gsta == statusMap && len(opts) == 2 && (forall k: seq {statusMap[k]} {haskey(statusMap, k)} :: haskey(statusMap, k) ==> (haskey(tarsResp.Status, k) && statusMap[k] == tarsResp.Status[k])) && ((statusMap != contextMap && statusMap != tarsResp.Context) ==> (forall k: seq {contextMap[k]} {haskey(contextMap, k)} :: haskey(contextMap, k) ==> (haskey(tarsResp.Context, k) && contextMap[k] == tarsResp.Context[k])))
+//@   loop 0 modifies mapcells(contextMap)
+//@   loop 1 modifies mapcells(contextMap)
+//@   loop 2 modifies mapcells(contextMap)
+//@   loop 3 modifies mapcells(contextMap)
+//@   loop 4 modifies mapcells(statusMap)
+//@   loop 5 modifies mapcells(statusMap)
+//
+//@ func (*Auth).ApplyTokenOneWayWithContext
+//@   noframe
+//@   site ).Write#0 assert [C01,C16] $2 == 1
+//@   sites ).Write = 1
+//@   sites ).Read = 0
+//@   site TarsInvoke#0 assert [C01,C16] $1 == 1 && $2 == "applyToken"
+//@   sites TarsInvoke = 1
+//
+//@ func (*Auth).DeleteTokenWithContext
+//@   noframe
+//@   site ).Write#0 assert [C01,C16] $2 == 1
+//@   sites ).Write = 1
+//@   site TarsInvoke#0 assert [C01,C16] $1 == 0 && $2 == "deleteToken"
+//@   sites TarsInvoke = 1
+//@   site ).Read#0 assert [C01,C16] $2 == 0
+//@   sites ).Read = 1
+//@   site TarsInvoke#0 assert [C01,C16] ((len(opts) == 1 || len(opts) == 2) ==> $5 == opts[0]) && (len(opts) == 2 ==> $4 == opts[1]) && $5 == contextMap && $4 == statusMap && $6 == tarsResp
+//@   site TarsInvoke#0 ghostafter obj.gresp = addr(*tarsResp)
+//@   site TarsInvoke#0 ghostafter obj.gctx = contextMap
+//@   site TarsInvoke#0 ghostafter obj.gsta = statusMap
+//@   site NewReader#0 ghostafter obj.gresp = addr(*tarsResp)
+//@   site NewReader#0 ghostafter obj.gctx = contextMap
+//@   site NewReader#0 ghostafter obj.gsta = statusMap
+//@   site ).Read#0 ghostafter obj.gresp = addr(*tarsResp)
+//@   site ).Read#0 ghostafter obj.gctx = contextMap
+//@   site ).Read#0 ghostafter obj.gsta = statusMap
+//@   ensures [C01,C16] (result1 == nil && len(opts) == 1) ==> (forall k: seq {cast(obj.gctx, "map[string]string")[k]} {haskey(cast(obj.gctx, "map[string]string"), k)} :: haskey(cast(obj.gctx, "map[string]string"), k) ==> (haskey(cast(obj.gresp, "*requestf.ResponsePacket").Context, k) && cast(obj.gctx, "map[string]string")[k] == cast(obj.gresp, "*requestf.ResponsePacket").Context[k]))
+//@   ensures [C01,C16] (result1 == nil && len(opts) == 2) ==> (forall k: seq {cast(obj.gsta, "map[string]string")[k]} {haskey(cast(obj.gsta, "map[string]string"), k)} :: haskey(cast(obj.gsta, "map[string]string"), k) ==> (haskey(cast(obj.gresp, "*requestf.ResponsePacket").Status, k) && cast(obj.gsta, "map[string]string")[k] == cast(obj.gresp, "*requestf.ResponsePacket").Status[k]))
+//@   ensures [C01,C16] (result1 == nil && len(opts) == 2 && obj.gsta != obj.gctx && obj.gsta != cast(obj.gresp, "*requestf.ResponsePacket").Context) ==> (forall k: seq {cast(obj.gctx, "map[string]string")[k]} {haskey(cast(obj.gctx, "map[string]string"), k)} :: haskey(cast(obj.gctx, "map[string]string"), k) ==> (haskey(cast(obj.gresp, "*requestf.ResponsePacket").Context, k) && cast(obj.gctx, "map[string]string")[k] == cast(obj.gresp, "*requestf.ResponsePacket").Context[k]))
+//@   loop 0 invariant obj.gresp == addr(*tarsResp) && obj.gctx == contextMap && obj.gsta == statusMap && len(opts) == 1 && (forall k: seq {visited(0, k)} :: visited(0, k) ==> !haskey(contextMap, k)) && (forall k: seq {haskey(contextMap, k)} :: haskey(contextMap, k) ==> atentry(0, haskey(contextMap, k)))
+//@   loop 1 invariant obj.gresp == addr(*tarsResp) && obj.gctx == contextMap && obj.gsta == statusMap && len(opts) == 1 && (forall k: seq {contextMap[k]} {haskey(contextMap, k)} :: haskey(contextMap, k) ==> (haskey(tarsResp.Context, k) && contextMap[k] == tarsResp.Context[k]))
+//@   loop 2 invariant obj.gresp == addr(*tarsResp) && obj.gctx == contextMap && obj.gsta == statusMap && len(opts) == 2 && (forall k: seq {visited(2, k)} :: visited(2, k) ==> !haskey(contextMap, k)) && (forall k: seq {haskey(contextMap, k)} :: haskey(contextMap, k) ==> atentry(2, haskey(contextMap, k)))
+//@   loop 3 invariant obj.gresp == addr(*tarsResp) && obj.gctx == contextMap && obj.gsta == statusMap && len(opts) == 2 && (forall k: seq {contextMap[k]} {haskey(contextMap, k)} :: haskey(contextMap, k) ==> (haskey(tarsResp.Context, k) && contextMap[k] == tarsResp.Context[k]))
+//@   loop 4 invariant obj.gresp == addr(*tarsResp) && obj.gctx == contextMap && obj.gsta == statusMap && len(opts) == 2 && (forall k: seq {visited(4, k)} :: visited(4, k) ==> !haskey(statusMap, k)) && (forall k: seq {haskey(statusMap, k)} :: haskey(statusMap, k) ==> atentry(4, haskey(statusMap, k))) && ((statusMap != contextMap && statusMap != tarsResp.Context) ==> (forall k: seq {contextMap[k]} {haskey(contextMap, k)} :: haskey(contextMap, k) ==> (haskey(tarsResp.Context, k) && contextMap[k] == tarsResp.Context[k])))
+//@   loop 5 invariant obj.gresp == addr(*tarsResp) && obj.gctx == contextMap && obj.gsta == statusMap && len(opts) == 2 && (forall k: seq {statusMap[k]} {haskey(statusMap, k)} :: haskey(statusMap, k) ==> (haskey(tarsResp.Status, k) && statusMap[k] == tarsResp.Status[k])) && ((statusMap != contextMap && statusMap != tarsResp.Context) ==> (forall k: seq {contextMap[k]} {haskey(contextMap, k)} :: haskey(contextMap, k) ==> (haskey(tarsResp.Context, k) && contextMap[k] == tarsResp.Context[k])))
+//@   loop 0 modifies mapcells(contextMap)
+//@   loop 1 modifies mapcells(contextMap)
+//@   loop 2 modifies mapcells(contextMap)
+//@   loop 3 modifies mapcells(contextMap)
+//@   loop 4 modifies mapcells(statusMap)
+//@   loop 5 modifies mapcells(statusMap)
+//
+//@ func (*Auth).DeleteTokenOneWayWithContext
+//@   noframe
+//@   site ).Write#0 assert [C01,C16] $2 == 1
+//@   sites ).Write = 1
+//@   sites ).Read = 0
+//@   site TarsInvoke#0 assert [C01,C16] $1 == 1 && $2 == "deleteToken"
+//@   sites TarsInvoke = 1
